@@ -337,15 +337,22 @@ def report_rejects(ctx, events, rejects, describe=None, site=None):
         ev = byid[eid]
         what = describe(ev) if describe else "%s(%s)" % (ev["act"], json.dumps(ev["inp"])[:200])
         r = ev.get("res")
+        rp = {"act": ev["act"], "inp": ev["inp"], "clause": clause}
+        if ev.get("from_suite") and "o" in ev and r is not None:
+            rp["observed_in_suite"] = r          # the outcome seen while the repository's own test ran
+            what = "[during the pinned test suite] " + what
         ctx.violation(site(ev, clause) if site else ev["act"], clause,
-                      "%s -> %s : %s" % (what, json.dumps(r)[:160], clause),
-                      {"act": ev["act"], "inp": ev["inp"], "clause": clause})
+                      "%s -> %s : %s" % (what, json.dumps(r)[:160], clause), rp)
 
 
 def std_replay(ctx, path, module, const=None):
     from . import acts
     rp = load_replay(path)
-    ev = acts.make(rp["act"], rp["inp"], 0)
+    if "observed_in_suite" in rp and rp["act"] not in ("CkdPriv", "CkdPub", "Addr", "PathParse"):
+        from . import suitetrace
+        ev = suitetrace.observed_event(rp["act"], rp["inp"], rp["observed_in_suite"], 0)
+    else:
+        ev = acts.make(rp["act"], rp["inp"], 0)
     rj = ctx.validate(module, [ev], shards=1, const=const)
     if rj:
         print("VIOLATION property=%s replay=%s  # %s: %s" % (ctx.prop, path, rp["act"], rj[0]))
